@@ -98,7 +98,7 @@ func (h *Header) Apply(hh http.Header) {
 
 		_, ok := hh[canonicalizedName]
 
-		if ok { // key exists, replace it
+		if ok && h.Name != canonicalizedName { // key exists, replace it
 			hh[h.Name] = hh[canonicalizedName]
 			delete(hh, canonicalizedName)
 		}
